@@ -40,9 +40,9 @@ func (rc *CRespCodec) Decode(c CConn) (*Msg, error) {
 		return nil, errors.ErrIncompletePacket
 	}
 
-	line, err := buf.ReadLine()
+	line, err := rc.readLine(buf)
 	if err != nil {
-		return nil, errors.ErrIncompletePacket
+		return nil, err
 	}
 
 	msgId++
@@ -51,9 +51,9 @@ func (rc *CRespCodec) Decode(c CConn) (*Msg, error) {
 	switch line[0] {
 	case '*':
 		n, err = parseLen(line[1:])
-		if n < 1 || err != nil {
+		if n < 1 || n > maxMultibulkLen || err != nil {
 			logging.Warnf("[%dm][%dc] unexpect resp, buf: %s", msgId, c.Fd(), utils.FormatRedisRESPMessages(buf.PeekAll()))
-			return nil, err
+			return nil, codec.ErrInvalidResp
 		}
 	default:
 		logging.Warnf("[%dm][%dc] unexpect resp, buf: %s", msgId, c.Fd(), utils.FormatRedisRESPMessages(buf.PeekAll()))
@@ -277,16 +277,34 @@ func (rc *CRespCodec) MSet(resp *Msg) {
 	}
 }
 
-func (rc *CRespCodec) parseLine(buf *codec.Buffer) ([]byte, error) {
+// readLine reads the next header line of a request. A line that has not arrived completely is
+// reported as ErrIncompletePacket, bytes that cannot be a RESP header line as ErrInvalidResp.
+func (rc *CRespCodec) readLine(buf *codec.Buffer) ([]byte, error) {
+	before := buf.ReadSize()
 	line, err := buf.ReadLine()
+	switch {
+	case err == nil:
+		return line, nil
+	case err == codec.ErrInvalidResp:
+		return nil, err
+	case err == codec.EmptyLine && buf.ReadSize() > before:
+		// a complete line too short to hold a type byte
+		return nil, codec.ErrInvalidResp
+	}
+	return nil, errors.ErrIncompletePacket
+}
+
+func (rc *CRespCodec) parseLine(buf *codec.Buffer) ([]byte, error) {
+	line, err := rc.readLine(buf)
 	if err != nil {
 		return nil, err
 	}
 	switch line[0] {
 	case '$':
+		// a null or malformed length is not an argument a redis server would accept
 		n, err := parseLen(line[1:])
 		if n < 0 || err != nil {
-			return nil, err
+			return nil, codec.ErrInvalidResp
 		}
 		b, err := buf.ReadN(n)
 		if err != nil {
